@@ -69,7 +69,8 @@ Section Own.
       cur_old : forall k, (forall i, 0 <= i < j -> k <> lo + 2 * i) -> f k = f0 k;
       cur_se : s0 <= s /\ e0 <= e /\ (exists a b, s - s0 = 2 * a /\ e - e0 = 2 * b) /\ (s - s0) + (e - e0) <= 2 * j;
       cur_e : e0 < e -> exists i, 0 <= i < j /\ n1 < nv i /\ e - e0 <= 2 * (j - i);
-      cur_s : s0 < s -> exists i, 0 <= i < j /\ nv i <= n1 /\ n2 < nv i - (lo + 2 * i) /\ s - s0 <= 2 * i + 2
+      cur_s : s0 < s -> exists i, 0 <= i < j /\ nv i <= n1 /\ n2 < nv i - (lo + 2 * i) /\ s - s0 <= 2 * i + 2;
+      cur_nohit : forall i, 0 <= i < j -> nv i <= n1 -> nv i - (lo + 2 * i) <= n2 -> ~ hitcond chk g (lo + 2 * i) (nv i)
     }.
 
     Lemma Cur_0 : Cur 0 f0 s0 e0.
@@ -80,6 +81,7 @@ Section Own.
       - repeat split; try lia. exists 0, 0. lia.
       - lia.
       - lia.
+      - intros i Hi. lia.
     Qed.
 
     Lemma Cur_newval j f s e : 0 <= j -> Cur j f s e -> newval f d (lo + 2 * j) = nv j.
@@ -92,7 +94,7 @@ Section Own.
     Proof.
       intros Hj C Hb.
       pose proof (Cur_newval j f s e Hj C) as Hn.
-      destruct C as [Cn Co (S1 & S2 & (a & b & Sa & Sb) & S3) Ce Cs].
+      destruct C as [Cn Co (S1 & S2 & (a & b & Sa & Sb) & S3) Ce Cs Cnh].
       assert (Hf : forall x, f' = upd f (lo + 2 * j) x ->
                 (forall i, 0 <= i < j + 1 -> f' (lo + 2 * i) = (if i =? j then x else nv i)) /\
                 (forall k, (forall i, 0 <= i < j + 1 -> k <> lo + 2 * i) -> f' k = f0 k)).
@@ -112,18 +114,21 @@ Section Own.
           * destruct (Ce Hlt) as (i & Hi & Hv & Hc). exists i. repeat split; try lia; assumption.
           * exists j. repeat split; try lia; assumption.
         + intros Hlt. destruct (Cs Hlt) as (i & Hi & Hv). exists i. split; [lia|assumption].
+        + intros i Hi G1 G2. destruct (Z.eq_dec i j) as [->|Hne]; [lia|]. apply Cnh; [lia|assumption|assumption].
       - split.
         + intros i Hi. rewrite Hf1 by assumption. destruct (i =? j) eqn:Ei; bz; now subst.
         + assumption.
         + repeat split; try lia. exists (a + 1), b. lia.
         + intros Hlt. destruct (Ce Hlt) as (i & Hi & Hv & Hc). exists i. repeat split; try lia; assumption.
         + intros _. exists j. repeat split; try lia; assumption.
+        + intros i Hi G1 G2. destruct (Z.eq_dec i j) as [->|Hne]; [lia|]. apply Cnh; [lia|assumption|assumption].
       - split.
         + intros i Hi. rewrite Hf1 by assumption. destruct (i =? j) eqn:Ei; bz; now subst.
         + assumption.
         + repeat split; try lia. exists a, b. lia.
         + intros Hlt. destruct (Ce Hlt) as (i & Hi & Hv & Hc). exists i. repeat split; try lia; assumption.
         + intros Hlt. destruct (Cs Hlt) as (i & Hi & Hv). exists i. split; [lia|assumption].
+        + intros i Hi G1 G2. destruct (Z.eq_dec i j) as [->|Hne]; [assumption|]. apply Cnh; [lia|assumption|assumption].
     Qed.
 
     (* outcome of the whole loop *)
